@@ -36,9 +36,17 @@ func simpEngine(raw json.RawMessage, _ []string) (any, error) {
 		return map[string]any{"parse_error": err.Error()}, nil
 	}
 	abs0 := Abs(f)
+	// does the tree print and re-parse before Simplify touches it?
+	var buf0 bytes.Buffer
+	origPrintE := ""
+	if err := syntax.NewPrinter().Print(&buf0, f); err != nil {
+		origPrintE = err.Error()
+	} else if _, err := parseBash(buf0.String()); err != nil {
+		origPrintE = err.Error()
+	}
 	changed := syntax.Simplify(f)
 	abs1 := Abs(f)
-	out := map[string]any{"changed": changed, "tree_changed": !reflect.DeepEqual(abs0, abs1)}
+	out := map[string]any{"changed": changed, "tree_changed": !reflect.DeepEqual(abs0, abs1), "orig_print_error": origPrintE}
 	if !v.NoAbs {
 		out["abs0"], out["abs1"] = abs0, abs1
 	}
